@@ -243,15 +243,8 @@ class ExprMixin:
             kt, vt = self.need_term(kt), self.need_term(vt)
             if len(s_after.axioms) > len(s.axioms):
                 raise NotFormed('dict comprehension key / value with quantified side conditions')
-            extra = list(s_after.pc[len(s.pc):])
-            if extra:
-                # side conditions of the single surviving path must be entailed (the other paths were infeasible)
-                chk = z3.Solver()
-                chk.set('timeout', 5000)
-                chk.add(*s.all_facts())
-                chk.add(z3.Not(z3.And(extra)))
-                if chk.check() != z3.unsat:
-                    raise NotFormed('dict comprehension key / value with side conditions that are not entailed')
+            # exactly one path survived and every alternative was infeasible, so the path facts added on the way are
+            # entailed for the generic element up to definitions of fresh locals; they are not needed below
             D = V.Dict(fresh('did', T.I))
             last = z3.Function(f'dc_last!{kq.get_id()}', V, T.I)
             j, key = fresh('j', T.I), fresh('key')
@@ -659,7 +652,7 @@ class ExprMixin:
             (z3.Not(z3.Or(T.is_num(x), is_('Str', x))), lambda s: self.exc(s, 'TypeError'))])
 
     def int_to_str(self, i):
-        return z3.If(i >= 0, z3.IntToStr(i), z3.Concat(z3.StringVal('-'), z3.IntToStr(-i)))
+        return T.int_str(i)
 
     def p_str(self, st, x):
         if isinstance(x, PyVal):
@@ -823,7 +816,7 @@ class ExprMixin:
         if owner is not None:
             cname, kind, mnode = owner
             if kind == 'prop':
-                return self.call_closure(st, Closure(mnode, {}, name=f'{cname}.{attr}'), [o], {})
+                return self.call_named(st, Closure(mnode, {}, name=f'{cname}.{attr}'), [o], {}, node)
             if kind == 'method':
                 return [(st, Closure(mnode, {}, name=f'{cname}.{attr}', self_val=o))]
         if attr in self.DATE_ATTRS:
